@@ -161,6 +161,10 @@ func cmdCheck(args []string) int {
 		}
 		units = append(units, w.verifyFunc(fc, nil))
 	}
+	if cfg.only == "" || strings.Contains("axioms", cfg.only) {
+		// consistency probe of the axioms, with every check
+		units = append(units, w.verifyAxioms([]string{cfg.prop}))
+	}
 	for _, l := range w.cs.lemmas {
 		if prop == "" || contains(l.Props, prop) {
 			if cfg.only != "" && !strings.Contains(l.Name, cfg.only) {
